@@ -18,13 +18,35 @@ pub struct Verified {
 }
 
 impl Verified {
+    /// Initial state: correct piece files left behind by an earlier run count as stored.
+    pub fn start(v: &View) -> Verified {
+        let mut s = Verified::default();
+        for (i, kind) in &v.plan.preexisting {
+            if *kind == 0 && (*i as usize) < v.out.torrent.pieces() {
+                let t = &v.out.torrent;
+                let h = t.piece_hashes[*i as usize];
+                for j in 0..t.pieces() {
+                    if t.piece_hashes[j] == h {
+                        s.set.insert(j);
+                    }
+                }
+            }
+        }
+        s
+    }
+
     pub fn on_event(&mut self, v: &View, ev: &Ev) {
         if let Ev::Disk { op: DiskOp::Write, path, ok: true, data, .. } = ev {
             let t = &v.out.torrent;
             let h = sha1(data);
             for i in 0..t.pieces() {
-                if t.piece_hashes[i] == h && path.ends_with(&format!("/{}.piece", hex_upper(&h))) {
-                    self.set.insert(i);
+                if path.ends_with(&format!("/{}.piece", hex_upper(&t.piece_hashes[i]))) {
+                    // the file now holds `data`, whatever it held before
+                    if t.piece_hashes[i] == h {
+                        self.set.insert(i);
+                    } else {
+                        self.set.remove(&i);
+                    }
                 }
             }
         }
@@ -351,7 +373,7 @@ impl Check for C01 {
         let mut vd = Verdict::default();
         vd.class = geometry_class(v.plan);
         let t = &v.out.torrent;
-        let mut ver = Verified::default();
+        let mut ver = Verified::start(v);
         let name_of = |i: usize| format!("/sim/cwd/{}.piece", hex_upper(&t.piece_hashes[i]));
         let mut scratch = Verdict::default();
         let tw = tiling_walk(v, &mut scratch, false);
@@ -423,6 +445,18 @@ impl Check for C01 {
                 }
                 _ => {}
             }
+        }
+        // final state: every piece the client counts as owned is really on the disk
+        let last_seq = v.out.entries.last().map(|e| e.seq).unwrap_or(0);
+        let owned: BTreeSet<usize> = v.out.entries.iter().filter_map(|e| if let Ev::PieceDone { index, .. } = &e.ev { Some(*index) } else { None }).collect();
+        for i in owned {
+            let ok = v.out.files.get(&name_of(i)).map(|d| sha1(d) == t.piece_hashes[i]).unwrap_or(false);
+            if !ok {
+                vd.fail("C01", "C01.owned-piece-not-on-disk", format!("piece {} is counted as owned but {} does not hold data with its hash", i, name_of(i)), last_seq);
+            }
+        }
+        if !v.plan.preexisting.is_empty() {
+            vd.probe("stale_piece_files_present");
         }
         // S3: a piece whose assembled data failed the hash is neither stored nor done, and is fetched again
         for (addr, index, seq) in &tw.corrupt_completions {
@@ -499,7 +533,7 @@ impl Check for C09 {
     fn judge(&self, v: &View) -> Verdict {
         let mut vd = Verdict::default();
         let t = &v.out.torrent;
-        let mut ver = Verified::default();
+        let mut ver = Verified::start(v);
         // requests the client has decoded per connection, not yet answered
         let mut seen: BTreeMap<ConnId, Vec<(u32, u32, u32)>> = BTreeMap::new();
         let mut wire_unchoked: BTreeMap<ConnId, bool> = BTreeMap::new();
@@ -798,7 +832,7 @@ impl Check for C11 {
         vd.class = geometry_class(v.plan);
         let t = &v.out.torrent;
         let n = t.pieces();
-        let mut ver = Verified::default();
+        let mut ver = Verified::start(v);
         let mut k_seq: Vec<(usize, u64, u64)> = Vec::new(); // (index, seq, t)
         struct CS {
             hs_seq: Option<u64>,
